@@ -38,6 +38,8 @@ type Req struct {
 	ProbeText    bool     `json:"probeText"`
 	Method       string   `json:"method"`
 	Path         string   `json:"path"`
+	Scheme       string   `json:"scheme"`
+	Prefix       string   `json:"prefix"`
 	Lines        []Line   `json:"lines"`
 }
 
@@ -94,6 +96,7 @@ func spell(l Line, h2 bool) string {
 
 type stackKey struct {
 	probe, ph, custom bool
+	prefix            string
 }
 type connKey struct {
 	sk    stackKey
@@ -152,7 +155,11 @@ func (c *conn) do(st *stack.Stack, sc Scenario, tag string, baseline bool) Obs {
 	}
 	status, body := 0, ""
 	if c.hc != nil {
-		fields := []h2raw.HF{{":method", method}, {":scheme", "https"}, {":authority", host}, {":path", path}, {"x-vf-tag", tag}}
+		scheme := "https"
+		if r.Scheme != "" && !baseline {
+			scheme = r.Scheme
+		}
+		fields := []h2raw.HF{{":method", method}, {":scheme", scheme}, {":authority", host}, {":path", path}, {"x-vf-tag", tag}}
 		if !baseline {
 			for _, u := range r.UA {
 				fields = append(fields, h2raw.HF{"user-agent", u})
@@ -236,7 +243,7 @@ func main() {
 	}
 	groups := map[connKey][]Scenario{}
 	for _, s := range scs {
-		k := connKey{stackKey{s.Req.Probe, s.Req.PreserveHost, s.Req.Custom != "absent"}, s.Req.Proto, s.Req.Kind}
+		k := connKey{stackKey{s.Req.Probe, s.Req.PreserveHost, s.Req.Custom != "absent", s.Req.Prefix}, s.Req.Proto, s.Req.Kind}
 		groups[k] = append(groups[k], s)
 	}
 	stacks := map[stackKey]*stack.Stack{}
@@ -248,7 +255,7 @@ func main() {
 		if k.sk.custom {
 			inj = append(inj, reverseproxy.HeaderInjector(customInjector{}))
 		}
-		st, err := stack.Start(stack.Options{Probe: k.sk.probe, PreserveHost: k.sk.ph, Injectors: inj})
+		st, err := stack.Start(stack.Options{Probe: k.sk.probe, PreserveHost: k.sk.ph, Injectors: inj, ForwardPath: k.sk.prefix})
 		if err != nil {
 			panic(err)
 		}
